@@ -62,6 +62,18 @@ def unit_switch_rule(repo: Repo, rep: Report, rid: str) -> None:
             ok = equivalent(f, ref)
         rep.check(ok, rid, key, f"'{short(n.ast.test, 80)}' {'==' if exact else '>='} (exhausted or typechanged)",
                   f"unit-switch guard '{short(n.ast.test, 90)}' is not {'equivalent to' if exact else 'implied by'} (exhausted or type changed)", fi.loc(n.ast))
+        # the type remembered for the open unit is the very value the next field is compared with
+        for cmpx in ast.walk(n.ast.test):
+            if isinstance(cmpx, ast.Compare) and len(cmpx.ops) == 1 and isinstance(cmpx.ops[0], ast.NotEq) and _unit_interp(cmpx) == "TYPECHANGED":
+                sides = [cmpx.left, cmpx.comparators[0]]
+                for t_side, o_side in (sides, sides[::-1]):
+                    stores = [s2 for s2 in n.ast.body for s2 in ast.walk(s2) if isinstance(s2, ast.Assign) and norm(s2.targets[0]) == norm(t_side)]
+                    if stores:
+                        rep.check(all(norm(s2.value) == norm(o_side) for s2 in stores), rid, f"{fi.key}:tracked-type",
+                                  f"'{norm(t_side)}' remembers '{norm(o_side)}', the value it is compared with",
+                                  f"the open unit's type is remembered as '{norm(stores[0].value)}' but the next field is compared as '{norm(o_side)}': "
+                                  f"when these differ (an Enum/Flag bit-field opening a unit) the following bit-fields of the same storage type are "
+                                  f"placed in a new unit here while the other implementations keep packing them into the first", fi.loc(stores[0]))
     rep.floor(rid, "unit-switch guards", found, 4)
     # writer half 1: BitBuffer.write flushes when the counter reaches 0 after the decrement
     fi = repo.func("bitbuffer.py", "BitBuffer.write")
